@@ -74,6 +74,114 @@ FINALS = [v for v in VERSION_POOL if not any(t in v for t in (b"a", b"b", b"rc",
 NAMES = [b"a", b"b", b"c", b"d", b"e", b"f", b"g", b"h", b"k", b"m", b"setuptools", b"zz"]
 
 
+# ----------------------------------------------------------------------------- markers: structure, text, reference truth
+# Markers are generated as small syntax trees and rendered to text in either operand order, so that their truth for a
+# set of extras is known independently of the code under test (PEP 508: a comparison of two PEP 440 versions is a
+# version comparison, anything else a string comparison; `extra == x` holds when x is a requested extra).
+MARKER_AST = {}      # text -> tree, for every marker this generator produced
+_ENV = None
+_NUM = re.compile(rb"^\d+(\.\d+)*$")
+
+
+def target_env():
+    """the fixed target environment, read from the working tree on every run"""
+    global _ENV
+    if _ENV is None:
+        src = open(os.path.join(lib.REPO, "util/resolve/pypi/internal/env.gen.go"), "rb").read()
+        body = src[src.index(b"var Markers = map[string]string{"):]
+        body = body[:body.index(b"\n}")]
+        _ENV = {m.group(1): m.group(2) for m in re.finditer(rb'"([a-z_]+)":\s+"([^"]*)"', body)}
+    return _ENV
+
+
+def _rel(v):
+    t = [int(x) for x in v.split(b".")]
+    while len(t) > 1 and t[-1] == 0:
+        t.pop()
+    return t
+
+
+def marker_truth(tree, extras):
+    kind = tree[0]
+    if kind == "and":
+        return marker_truth(tree[1], extras) and marker_truth(tree[2], extras)
+    if kind == "or":
+        return marker_truth(tree[1], extras) or marker_truth(tree[2], extras)
+    _, var, op, lit, var_left = tree
+    if var == b"extra":
+        return lit in extras
+    val = target_env()[var]
+    lhs, rhs = (val, lit) if var_left else (lit, val)
+    if op in (b"in", b"not in"):
+        return (lhs in rhs) == (op == b"in")
+    if _NUM.match(lhs) and _NUM.match(rhs):
+        a, b = _rel(lhs), _rel(rhs)
+    else:
+        a, b = lhs, rhs
+    return {b"==": a == b, b"!=": a != b, b"<": a < b, b"<=": a <= b, b">": a > b, b">=": a >= b}[op]
+
+
+def marker_text(rng, tree, top=True):
+    kind = tree[0]
+    if kind in ("and", "or"):
+        def side(t):
+            txt = marker_text(rng, t, False)
+            if t[0] == "or" and kind == "and" or (t[0] in ("and", "or") and rng.random() < 0.2):
+                return b"(" + txt + b")"
+            return txt
+        txt = side(tree[1]) + b" " + kind.encode() + b" " + side(tree[2])
+        return b"(" + txt + b")" if (top and rng.random() < 0.1) else txt
+    _, var, op, lit, var_left = tree
+    q = rng.choice([b'"', b"'"])
+    l, r = (var, q + lit + q) if var_left else (q + lit + q, var)
+    return l + b" " + op + b" " + r
+
+
+def gen_atom(rng, extra=None):
+    if extra is not None or rng.random() < 0.28:
+        return ("atom", b"extra", b"==", extra or rng.choice(XNAMES[:2] if rng.random() < 0.85 else XNAMES), rng.random() < 0.5)
+    r = rng.random()
+    if r < 0.45:
+        var = b"python_version" if rng.random() < 0.8 else b"python_full_version"
+        lits = [b"2.7", b"3", b"3.6", b"3.8", b"3.9", b"3.10", b"3.11", b"4.0"] if var == b"python_version" else \
+               [b"3.8.12", b"3.9.0", b"3.9.6", b"3.10.1"]
+        return ("atom", var, rng.choice([b"<", b"<=", b">", b">=", b"==", b"!="]), rng.choice(lits), rng.random() < 0.5)
+    var, lits = rng.choice([(b"sys_platform", [b"linux", b"win32", b"darwin"]), (b"os_name", [b"posix", b"nt"]),
+                            (b"platform_system", [b"Linux", b"Windows"])])
+    if rng.random() < 0.75:
+        return ("atom", var, rng.choice([b"==", b"!="]), rng.choice(lits), rng.random() < 0.5)
+    if rng.random() < 0.5:     # the variable's value is looked for in a list written as one string
+        return ("atom", var, rng.choice([b"in", b"not in"]), b" ".join(rng.sample(lits, rng.randrange(1, len(lits) + 1))), True)
+    return ("atom", var, rng.choice([b"in", b"not in"]), rng.choice(lits)[:3], False)   # a fragment looked for in the value
+
+
+def gen_marker_tree(rng, depth=0):
+    r = rng.random()
+    if depth >= 2 or r < 0.6:
+        return gen_atom(rng)
+    return (rng.choice(["and", "or"]), gen_marker_tree(rng, depth + 1), gen_marker_tree(rng, depth + 1))
+
+
+def marker_of(rng, tree):
+    txt = marker_text(rng, tree)
+    MARKER_AST[txt] = tree
+    return txt
+
+
+def gen_marker(rng):
+    return marker_of(rng, gen_marker_tree(rng))
+
+
+def extra_marker(rng, e):
+    """`extra == e` in either operand order, sometimes joined with a condition that is true of the target"""
+    t = gen_atom(rng, extra=e)
+    if rng.random() < 0.2:
+        t = ("and", t, ("atom", b"os_name", b"!=", b"nt", rng.random() < 0.5))
+        if rng.random() < 0.5:
+            t = ("and", t[2], t[1])
+    return marker_of(rng, t)
+
+
 def major(v):
     return v.split(b".")[0]
 
@@ -152,7 +260,7 @@ def gen_type(rng, is_root_req):
         t.append([K_EXTRAS, rng.choice(EXTRAS)])
     r = rng.random()
     if r < 0.33:
-        t.append([K_ENV, rng.choice(MARKERS)])
+        t.append([K_ENV, gen_marker(rng)])
     elif r < 0.337:
         t.append([K_ENV, rng.choice(BAD_MARKERS)])
     return t
@@ -226,7 +334,7 @@ def gen_universe(rng):
         for v in vers[b2]:
             uni[b2][v] = [[d, b"", [[K_EXTRAS, b"e2"]]]]
         for v in vers[d]:
-            uni[d][v] = [[e, b"", [[K_ENV, b'extra == "e1"']]], [f, b"", [[K_ENV, b'extra == "e2"']]]]
+            uni[d][v] = [[e, b"", [[K_ENV, extra_marker(rng, b"e1")]]], [f, b"", [[K_ENV, extra_marker(rng, b"e2")]]]]
     if rng.random() < 0.10:
         rejected_extras_template(rng, names, vers, uni)
     if rng.random() < 0.04 and npk >= 7:
@@ -250,7 +358,7 @@ def gen_universe(rng):
             for v in vers[k]:
                 uni[k][v] = [[z, b"", []]]
             for v in vers[z]:
-                uni[z][v] = [[m, b"", [[K_ENV, b'extra == "e2"']]]]
+                uni[z][v] = [[m, b"", [[K_ENV, extra_marker(rng, b"e2")]]]]
             for v in vers[m]:
                 uni[m][v] = []
     return names, vers, uni
@@ -282,7 +390,7 @@ def rejected_extras_template(rng, names, vers, uni):
     if not other:
         other = [ex[-1]]
     for v in vers[foo]:
-        uni[foo][v] = [[g, b"", [[K_ENV, b'extra == "' + e + b'"']]] for e, g in gated_for.items()]
+        uni[foo][v] = [[g, b"", [[K_ENV, extra_marker(rng, e)]]] for e, g in gated_for.items()]
     for g in gated:
         for v in vers[g]:
             uni[g][v] = []
@@ -374,13 +482,28 @@ class Oracle:
             self.mv[(pkg, rq)] = (ok, mv, withpre)
 
     def marker_val(self, ty, extras):
+        """truth of the requirement's marker for a set of extras: from the marker's own structure when this generator
+        built it (the text as written, evaluated by the PEP 508 rules), else as the Go evaluator reports it; None when
+        the Go parser rejects the text (the resolution then fails before any graph exists)"""
         env = dict((k, v) for k, v in ty).get(K_ENV)
         if env is None:
             return True
         ok, val = self.marker.get((env, tuple(sorted(extras))), (0, 0))
         if not ok:
             return None
+        tree = MARKER_AST.get(env)
+        if tree is not None:
+            return bool(marker_truth(tree, set(extras)))
         return bool(val)
+
+    def marker_agrees(self, ty):
+        """the Go evaluator gives the marker of this requirement its reference truth for every set of extras"""
+        env = dict((k, v) for k, v in ty).get(K_ENV)
+        tree = MARKER_AST.get(env)
+        if env is None or tree is None:
+            return True
+        return all(not ok or bool(val) == bool(marker_truth(tree, set(ex)))
+                   for (m, ex), (ok, val) in self.marker.items() if m == env)
 
     def satisfies(self, pkg, rq, w):
         ok, mv, withpre = self.mv[(pkg, rq)]
@@ -536,6 +659,12 @@ def run_batch(ctx, unis, label):
         markers, direct, per, _ = o
         impl_obs, model_obs, nb_list = parse_sx(il), parse_sx(ml), parse_sx(nbl)
         orc_tables = [markers, []]
+        for m, ex, ok, val in markers:      # measured only: marker semantics is C16; the graph clauses below report
+            tree = MARKER_AST.get(m)
+            if tree is not None and ok:
+                ctx.count("marker_evaluations_compared_with_reference")
+                if bool(val) != bool(marker_truth(tree, set(ex))):
+                    ctx.count("marker_evaluations_differing_from_reference")
         for r, (rec, raw_differs, raw_obs, nondet, inconsistent, wf, rejected), iobs, mobs, nb in zip(
                 roots, per, impl_obs, model_obs, nb_list):
             ctx.count("corr:roots")
@@ -567,6 +696,8 @@ def run_batch(ctx, unis, label):
             for which, g in seen_objs:
                 for h in orc.check(g):
                     kf = classify(h, orc)
+                    if kf is not None and not orc.marker_agrees(h[1][3]):
+                        kf = None      # the marker itself is evaluated wrongly: not an instance of a known class
                     if kf is not None and (repr(h) in model_hits or which == "raw"):
                         ctx.known_hits[kf] = ctx.known_hits.get(kf, 0) + 1
                         continue
